@@ -276,9 +276,48 @@ def A11_pop_deletes(repo, clause):
         di = repo.fn("Atoms.__delitem__")
         callee_norm = any(isinstance(x, ast.BinOp) and isinstance(x.op, ast.Mod) for x in ast.walk(di.node)) or \
             any(isinstance(x, ast.Call) and call_name(x) in ("arange",) for x in ast.walk(di.node))
+        # a normalisation inside __delitem__ (`i % len(self)`) must read the length BEFORE the per-atom arrays are shortened
+        for m_ in [x for x in di.own_nodes() if isinstance(x, ast.BinOp) and isinstance(x.op, ast.Mod) and isinstance(x.right, ast.Call) and call_name(x.right) == "len"
+                   and ast.unparse(x.right.args[0]) in ("self", "self.positions")]:
+            st_m = di.stmt_of(m_)
+            shr = [x for x in di.own_nodes() if isinstance(x, ast.Assign) and any(is_self_attr(t, "positions") for t in x.targets)]
+            stale = [x for x in shr if st_m is not None and di.cfg.reaches(x, st_m) and x is not st_m]
+            obs.append(Ob("A11", clause, di, m_, not stale,
+                          "negative indices are normalised with `%s` %s" % (ast.unparse(m_)[:40], "before the atoms are removed" if not stale else
+                                                                            "AFTER `%s` has already shortened the per-atom arrays: the length is stale, so a negative index is mapped to the wrong atom for the term bookkeeping" % ast.unparse(stale[0])[:50]),
+                          slot="normalisation-before-removal", positive="robust" if stale else False))
+        from .common import eval_small, Undecidable
+        import copy as _copy
+
+        class _AbsLen(ast.NodeTransformer):
+            def visit_Call(self, n):
+                if call_name(n) == "len" and len(n.args) == 1 and ast.unparse(n.args[0]) in ("self", "self.positions"):
+                    return ast.copy_location(ast.Name(id="N", ctx=ast.Load()), n)
+                return self.generic_visit(n)
         for d, idx in dels:
             e = expand(fn, idx) if idx is not None else None
             txt = ast.unparse(e) if e is not None else ""
+            # the index handed to __delitem__, evaluated for a structure of five atoms: every valid negative position must arrive as the non-negative index of the same atom
+            sem_n = None
+            if e is not None and not callee_norm:
+                try:
+                    bad = []
+                    ea = _AbsLen().visit(_copy.deepcopy(e))
+                    for pv in (-1, -2, -5, 0, 3):
+                        got = eval_small(ea, {pos: pv, "N": 5})
+                        got = got[0] if isinstance(got, tuple) and len(got) == 1 else got
+                        if got != pv % 5:
+                            bad.append((pv, got))
+                    sem_n = (not bad, bad[:1])
+                except Undecidable:
+                    sem_n = None
+            if sem_n is not None:
+                okn, exn = sem_n
+                obs.append(Ob("A11", clause, fn, d, okn,
+                              "every position, negative ones included, reaches the deletion as the non-negative index of the same atom%s" % (
+                                  "" if okn else ": pop(%d) on five atoms hands over %r (term re-indexing compares raw index values: the terms of the removed atom survive and the others are re-indexed wrongly)" % exn[0]),
+                              slot="negative-index", positive="robust" if not okn else False))
+                continue
             normalised = callee_norm or ("len(" in txt) or any(isinstance(x, ast.Call) and call_name(x) in ("range", "arange") for x in ast.walk(e))
             obs.append(Ob("A11", clause, fn, d, normalised,
                           "default index %s is negative; it is %s to a non-negative atom index before term re-indexing compares raw index values"
